@@ -172,7 +172,7 @@ class Check:
             rc, so, se = sh(["lake", "build"] + mods, cwd=LEAN, timeout=3000)
         src = open(module_path(mod)).read()
         code = strip_lean_comments(src)
-        self.theorems = re.findall(r"^\s*(?:protected\s+)?theorem\s+([\w.']+)", code, re.M)
+        self.theorems = re.findall(r"^\s*(?:protected\s+)?theorem\s+([^\s:({\[]+)", code, re.M)
         ns = re.findall(r"^\s*namespace\s+([\w.]+)", code, re.M)
         self.theorem_ns = ns[0] if ns else ""
         if rc != 0:
